@@ -9,128 +9,12 @@ a wildcard child) and K2 (the empty range `until ⊥`) are excluded by
 hypothesis, with negation witnesses below.
 -/
 import DropshotProofs.C04
+import DropshotProofs.Lemmas.RouterConflict
 import DropshotModel.Register
 
 namespace Dropshot.C02
 open Dropshot
 variable {V : Type} [LinearOrder V]
-
-/-- A template whose wildcard, if any, is its last segment. -/
-def WildLast : List Seg → Prop
-  | [] => True
-  | [_] => True
-  | .wild _ :: _ :: _ => False
-  | _ :: rest => WildLast rest
-
-theorem wildLast_cons (s : Seg) (rest : List Seg) (h1 : ∀ n, s = .wild n → rest = [])
-    (h2 : WildLast rest) : WildLast (s :: rest) := by
-  cases rest with
-  | nil => trivial
-  | cons r rs =>
-    cases s with
-    | wild n => exact absurd (h1 n rfl) (by simp)
-    | lit _ => exact h2
-    | var _ => exact h2
-
-theorem Node.chain_wildLast : ∀ (segs : List Seg) (seen : List String) (e : Endpoint V) (c : Node V),
-    Node.chain segs seen e = .ok c → WildLast segs
-  | [], _, _, _, _ => trivial
-  | .lit s :: rest, seen, e, c, h => by
-    simp only [Node.chain] at h
-    split at h
-    · cases h
-    · rename_i c' hc
-      exact wildLast_cons _ _ (by simp) (Node.chain_wildLast rest seen e c' hc)
-  | .var n :: rest, seen, e, c, h => by
-    simp only [Node.chain] at h
-    split at h
-    · cases h
-    · split at h
-      · cases h
-      · rename_i c' hc
-        exact wildLast_cons _ _ (by simp) (Node.chain_wildLast rest (n :: seen) e c' hc)
-  | .wild n :: rest, seen, e, c, h => by
-    simp only [Node.chain] at h
-    split at h
-    · cases h
-    · rename_i hr
-      have : rest = [] := by simpa using hr
-      subst this; trivial
-
-mutual
-  theorem Node.insertAt_wildLast : ∀ (n : Node V) (segs : List Seg) (seen : List String)
-      (e : Endpoint V) (n' : Node V), Node.insertAt n segs seen e = .ok n' → WildLast segs
-    | .mk ms es, [], _, _, _, _ => trivial
-    | .mk ms es, seg :: rest, seen, e, n', h => by
-      simp only [Node.insertAt] at h
-      split at h
-      · cases h
-      · rename_i es' hes
-        exact Edges.insertAt_wildLast es seg rest seen e es' hes
-  theorem Edges.insertAt_wildLast : ∀ (es : Edges V) (seg : Seg) (rest : List Seg)
-      (seen : List String) (e : Endpoint V) (es' : Edges V),
-      Edges.insertAt es seg rest seen e = .ok es' → WildLast (seg :: rest)
-    | .none, seg, rest, seen, e, es', h => by
-      simp only [Edges.insertAt] at h
-      split at h
-      · cases h
-      · rename_i ms es0 hc
-        exact Node.chain_wildLast (seg :: rest) seen e _ hc
-    | .lits cs, .lit s, rest, seen, e, es', h => by
-      simp only [Edges.insertAt] at h
-      split at h
-      · cases h
-      · rename_i cs' hcs
-        exact wildLast_cons _ _ (by simp) (Children.insertAt_wildLast cs s rest seen e cs' hcs)
-    | .lits _, .var n, _, seen, _, _, h => by
-      simp only [Edges.insertAt] at h; split at h <;> cases h
-    | .lits _, .wild n, rest, seen, _, _, h => by
-      simp only [Edges.insertAt] at h; (repeat' split at h) <;> cases h
-    | .single _ _, .lit _, _, _, _, _, h => by simp [Edges.insertAt] at h
-    | .single n' c, .var n, rest, seen, e, es', h => by
-      simp only [Edges.insertAt] at h
-      split at h
-      · cases h
-      · split at h
-        · cases h
-        · split at h
-          · cases h
-          · rename_i c' hc
-            exact wildLast_cons _ _ (by simp) (Node.insertAt_wildLast c rest (n :: seen) e c' hc)
-    | .single _ _, .wild n, rest, seen, _, _, h => by
-      simp only [Edges.insertAt] at h; (repeat' split at h) <;> cases h
-    | .rest _ _, .lit _, _, _, _, _, h => by simp [Edges.insertAt] at h
-    | .rest _ _, .var n, _, seen, _, _, h => by
-      simp only [Edges.insertAt] at h; split at h <;> cases h
-    | .rest n' c, .wild n, rest, seen, e, es', h => by
-      simp only [Edges.insertAt] at h
-      split at h
-      · cases h
-      · rename_i hr
-        have : rest = [] := by simpa using hr
-        subst this; trivial
-  theorem Children.insertAt_wildLast : ∀ (cs : Children V) (k : String) (rest : List Seg)
-      (seen : List String) (e : Endpoint V) (cs' : Children V),
-      Children.insertAt cs k rest seen e = .ok cs' → WildLast rest
-    | .nil, k, rest, seen, e, cs', h => by
-      simp only [Children.insertAt] at h
-      split at h
-      · cases h
-      · rename_i c hc; exact Node.chain_wildLast rest seen e c hc
-    | .cons k' c tl, k, rest, seen, e, cs', h => by
-      simp only [Children.insertAt] at h
-      split at h
-      · split at h
-        · cases h
-        · rename_i c' hc; exact Node.insertAt_wildLast c rest seen e c' hc
-      · split at h
-        · split at h
-          · cases h
-          · rename_i cn hc; exact Node.chain_wildLast rest seen e cn hc
-        · split at h
-          · cases h
-          · rename_i tl' htl; exact Children.insertAt_wildLast tl k rest seen e tl' htl
-end
 
 /-- The canonical request path for a template: literals as they are, every
 variable ↦ "x", a trailing wildcard ↦ no segments. -/
@@ -200,6 +84,62 @@ theorem accepted_unambiguous_partial (es : List (Endpoint V)) (t : Node V)
     | some vs2 =>
       exact (C01.lookup_unique_partial t w hK m p v e₁ e₂ vs1 vs2
         ⟨(a _).2 h11, h12, hm1, h14⟩ ⟨(a _).2 h21, h22, hm2, h24⟩).1
+
+
+/-! ### Conflicts are rejected -/
+
+/-- The declarative list: a segment after a wildcard; a repeated variable name;
+against some registered endpoint, two different kinds of segment or two
+differently named variables at the first position where the templates differ;
+or the same template and method with overlapping version ranges. -/
+def Conflict (registered : List (Endpoint V)) (e : Endpoint V) : Prop :=
+  ¬ WildLast e.path ∨ ¬ (varNames e.path).Nodup ∨
+  ∃ e' ∈ registered, pathClash e'.path e.path = true ∨
+    (e'.path = e.path ∧ normMethod e'.method = normMethod e.method ∧
+      Range.overlaps e'.versions e.versions = true)
+
+/-- **C02, conflicts are rejected.**  Registering an endpoint that conflicts
+with what is already registered (or with itself) fails, whatever the table. -/
+theorem conflict_refused (t : Node V) (hw : C01.WF t) (e : Endpoint V)
+    (hc : Conflict t.abs e) : ∃ err, t.insert e = .error err := by
+  cases hins : t.insert e with
+  | error err => exact ⟨err, rfl⟩
+  | ok t' =>
+    exfalso
+    unfold Node.insert at hins
+    rcases hc with h | h | ⟨e', he', h | ⟨hp, hm, ho⟩⟩
+    · exact h (Node.insertAt_wildLast t e.path [] e t' hins)
+    · exact h (Node.insertAt_vars t e.path [] e t' hins).1
+    · obtain ⟨a, ha⟩ := (C01.mem_abs_iff t e').1 he'
+      have haddr := hw.addr _ ha
+      simp only at haddr
+      subst haddr
+      have := Node.insertAt_noClash t e.path [] e t' hw.sorted hins (_, e') ha
+      simp only at this
+      rw [this] at h; cases h
+    · obtain ⟨a, ha⟩ := (C01.mem_abs_iff t e').1 he'
+      have haddr := hw.addr _ ha
+      simp only at haddr
+      subst haddr
+      rw [hp] at ha
+      have := Node.insertAt_noOverlap t e.path [] e t' hw.sorted hw.methods hins e' ha hm
+      rw [this] at ho; cases ho
+
+/-- The same for a shared version: two endpoints on one template and method whose
+ranges share a version cannot both be registered, in either order. -/
+theorem shared_version_refused (t : Node V) (hw : C01.WF t) (e e' : Endpoint V)
+    (he' : e' ∈ t.abs) (hp : e'.path = e.path) (hm : normMethod e'.method = normMethod e.method)
+    (hr : Range.WF e.versions) (v : V) (h1 : Range.Mem v e'.versions) (h2 : Range.Mem v e.versions) :
+    ∃ err, t.insert e = .error err :=
+  conflict_refused t hw e (Or.inr (Or.inr ⟨e', he', Or.inr ⟨hp, hm,
+    C05.overlaps_of_shared _ _ (hw.ranges _ he') hr ⟨v, h1, h2⟩⟩⟩))
+
+/-- Non-vacuity: each kind of conflict occurs on a concrete table. -/
+example : pathClash [.lit "a", .var "x"] [.lit "a", .lit "b"] = true ∧
+    pathClash [.lit "a", .var "x"] [.lit "a", .var "y", .lit "c"] = true ∧
+    pathClash [.lit "a", .wild "r"] [.lit "a", .var "r"] = true ∧
+    pathClash [.lit "a"] [.lit "b"] = false ∧ pathClash [.lit "a"] [.lit "a", .var "x"] = false := by
+  decide
 
 
 /-! ### The checks `register` runs before the router -/
